@@ -5,6 +5,7 @@
 package vt
 
 import (
+	"errors"
 	"strings"
 	"time"
 
@@ -12,6 +13,9 @@ import (
 	"go.nanomsg.org/mangos/v3/transport"
 	"go.nanomsg.org/mangos/v3/zzverif/verif"
 )
+
+// ErrReset: what closing (or using) a connection reports after the peer reset it.
+var ErrReset = errors.New("vt: connection reset by peer")
 
 type Rec struct {
 	H, B []byte
@@ -46,6 +50,7 @@ type Pipe struct {
 	Opts       map[string]interface{}
 	T          *Tran
 	Peer       *Pipe // linked pipe of another socket: what is sent here arrives there
+	CloseErr   error // what Close reports (the connection is closed regardless)
 }
 
 func NewPipe(t *Tran, name string) *Pipe {
@@ -112,7 +117,9 @@ func (p *Pipe) Close() error {
 			p.T.Log = append(p.T.Log, Ev{Pipe: p, Kind: "close"})
 		}
 	}
-	return nil
+	// CloseErr: closing a connection that the peer has reset reports an error (as tls.Conn.Close does when it
+	// cannot send its close-notify) - the connection is closed all the same
+	return p.CloseErr
 }
 
 func (p *Pipe) GetOption(n string) (interface{}, error) {
